@@ -139,6 +139,7 @@ fn observe<'x>(r: IResult<&'x [u8], Vec<TlsMessage<'x>>>) -> RawObs {
     let abs = Base {
         ptr: 0,
         len: usize::MAX,
+        content: false,
     };
     match r {
         Ok((rem, v)) => RawObs::Ok {
